@@ -350,6 +350,55 @@ def replay(col, item):
         shutil.rmtree(root, ignore_errors=True)
 
 
+def subresolution(col, seed):
+    """Time stamps FINER than the file names (an instrument clock in microseconds, names down to the minute, second or
+    millisecond): fileset[stamp] = data stores the data in the name-resolution bin that CONTAINS the stamp (every finer
+    field is cut off, as for all coarser resolutions) - so each content is found again in exactly that bin, starts at the
+    bin's first instant and reads back equal, and the fileset sees as many files as there are distinct bins."""
+    import random
+    from datetime import datetime, timedelta
+    from typhon.files import FileSet
+    rng = random.Random(seed)
+    name, res = [("{hour}{minute}", timedelta(minutes=1)), ("{hour}{minute}{second}", timedelta(seconds=1)),
+                 ("{hour}{minute}{second}{millisecond}", timedelta(milliseconds=1)),
+                 ("{hour}{minute}{second}_{millisecond}", timedelta(milliseconds=1))][seed % 4]
+    root = tempfile.mkdtemp(prefix="verif-c11s-")
+    try:
+        fs = FileSet(os.path.join(root, "{year}{month}{day}", "obs_" + name + ".pkl"), handler=pickle_handler(),
+                     worker_type="thread", max_threads=1)
+        day = datetime(2018, 1, 1) + timedelta(days=rng.randrange(0, 400))
+        stamps = {}
+        edge = [0, 1, 499, 500, 501, 999, 999499, 999500, 999501, 999999, 41500, 500000, 59999999 % 1000000]
+        for i in range(8):
+            st = day + timedelta(hours=rng.choice([0, 12, 23]), minutes=rng.choice([0, 30, 59]), seconds=rng.choice([0, 29, 59]),
+                                 microseconds=rng.choice(edge) if i % 2 == 0 else rng.randrange(1000000))
+            b = datetime.min + ((st - datetime.min) // res) * res
+            stamps[b] = (st, {"payload": i, "blob": bytes(range(i * 3))})
+        rep = {"abstract": {"resolution": str(res), "stamps": [str(v[0]) for v in stamps.values()]}, "concrete": {"template": name}}
+        for b, (st, data) in stamps.items():
+            fs[st] = data
+        col.count(1)
+        seen = list(fs.find(no_files_error=False))
+        if len(seen) != len(stamps):
+            col.violation("stored-data-invisible-subresolution-stamp",
+                          dict(rep, expected=len(stamps), observed=sorted(os.path.basename(f.path) for f in seen)))
+            return
+        for b, (st, data) in stamps.items():
+            files = list(fs.find(b, b + res, no_files_error=False))
+            if len(files) != 1 or files[0].times[0] != b:
+                col.violation("stored-data-not-in-its-name-bin", dict(rep, stamp=str(st), bin=str(b),
+                                                                     observed=[[os.path.basename(f.path), str(f.times[0])] for f in files]))
+                return
+            if fs.read(files[0]) != data:
+                col.violation("stored-data-reads-back-different-subresolution", dict(rep, stamp=str(st)))
+                return
+        col.nontrivial.add(("subresolution", seed))
+    except Exception as ex:
+        col.violation("subresolution-raises-" + type(ex).__name__, {"abstract": {"seed": seed, "template": name}, "observed": repr(ex)[:300]})
+    finally:
+        shutil.rmtree(root, ignore_errors=True)
+
+
 def gen_histories(ctx, LX, LY, num, depth, seed):
     d = ctx.tlc_dir("fileset")
     with open(os.path.join(d, "MCOps.cfg"), "w") as f:
@@ -381,6 +430,7 @@ def run(ctx):
         for n, c in enumerate(cases):
             items.append((c, ci, n))
     pmap(ctx, replay, items)
+    pmap(ctx, subresolution, [ctx.seed * 100 + i for i in range(24 if quick else 400)])
     ctx.traces += len(items)
     h = items[0][0]["hist"]
     ctx.sample({"history": [{k: x[k] for k in ("op", "f", "id", "c", "sel", "flag")} for x in h],
